@@ -77,210 +77,209 @@ Proof. induction a as [|y a IH]; simpl; [destruct b; reflexivity|]. simpl in IH.
 Lemma skipn_S_mid {A} (a : list A) x b : skipn (S (length a)) (a ++ x :: b) = b.
 Proof. induction a as [|y a IH]; simpl; [reflexivity|]. exact IH. Qed.
 
-(* what the guard says about a verdict that involves lines length pre1 < length pre,
-   both assigning x *)
-Lemma guard_facts pre1 lp mid l post x vd ap a :
-  l_body lp = Some ap -> a_var ap = x -> l_body l = Some a -> a_var a = x ->
-  ((vd_flagged vd = length (pre1 ++ lp :: mid) /\ vd_because vd = length pre1) \/
-   (vd_flagged vd = length pre1 /\ vd_because vd = length (pre1 ++ lp :: mid))) ->
-  guard ((pre1 ++ lp :: mid) ++ l :: post) vd = true ->
-  plain_on x (pre1 ++ lp :: mid) = true /\ eager_plain_line l = true /\
-  (vd_flagged vd = length pre1 -> eager_plain mid = true) /\
-  backward_default_ok ((pre1 ++ lp :: mid) ++ l :: post) vd = true /\
-  forward_same_ok ((pre1 ++ lp :: mid) ++ l :: post) vd = true.
+Lemma forallb_firstn {A} (f : A -> bool) n l : forallb f l = true -> forallb f (firstn n l) = true.
 Proof.
-  intros Hlb Hlv Eb Ex Hcase Hg.
-  assert (Hlen : (length pre1 < length (pre1 ++ lp :: mid))%nat) by (rewrite app_length; simpl; lia).
-  unfold guard in Hg.
-  apply andb_true_iff in Hg as [Hg Hfwd]. apply andb_true_iff in Hg as [Hg Hbwd].
-  apply andb_true_iff in Hg as [Hpo Hmid].
-  assert (Hmax : Nat.max (vd_flagged vd) (vd_because vd) = length (pre1 ++ lp :: mid))
-    by (destruct Hcase as [[-> ->]|[-> ->]]; lia).
-  assert (Hmin : Nat.min (vd_flagged vd) (vd_because vd) = length pre1)
-    by (destruct Hcase as [[-> ->]|[-> ->]]; lia).
-  assert (Hvar : line_var ((pre1 ++ lp :: mid) ++ l :: post) (vd_flagged vd) = x).
-  { unfold line_var. destruct Hcase as [[-> _]|[-> _]].
-    - rewrite nth_error_mid, Eb. exact Ex.
-    - rewrite <- app_assoc. simpl app. rewrite nth_error_mid, Hlb. exact Hlv. }
-  rewrite Hmax, Hvar, firstn_S_mid, plain_on_app in Hpo.
-  apply andb_true_iff in Hpo as [Hpo Hl]. unfold plain_on in Hl. simpl in Hl.
-  rewrite andb_true_r in Hl. unfold assigns in Hl. rewrite Eb, Ex, str_eqb_refl in Hl. simpl in Hl.
-  repeat split; auto.
-  intro Hf. rewrite Hmax, Hmin in Hmid. rewrite Hf in Hmid. destruct Hcase as [[Hc _]|[_ Hc]]; [lia|].
-  rewrite Hc in Hmid. apply Nat.ltb_lt in Hlen. rewrite Hlen in Hmid.
-  unfold between in Hmid.
-  rewrite <- app_assoc in Hmid. simpl app in Hmid. rewrite skipn_S_mid in Hmid.
-  replace (length (pre1 ++ lp :: mid) - S (length pre1))%nat with (length mid) in Hmid
+  revert n; induction l as [|x l IH]; intros [|n] H; simpl; try reflexivity.
+  simpl in H. apply andb_true_iff in H as [H1 H2]. rewrite H1, IH; auto.
+Qed.
+
+Lemma forallb_skipn {A} (f : A -> bool) n l : forallb f l = true -> forallb f (skipn n l) = true.
+Proof.
+  revert n; induction l as [|x l IH]; intros [|n] H; simpl; try reflexivity; try exact H.
+  simpl in H. apply andb_true_iff in H as [H1 H2]. apply IH; exact H2.
+Qed.
+
+(* in a program whose eager lines are plain, every recorded ':=' is plain *)
+Lemma writes_of_plain x : forall ls idx,
+  forallb eager_plain_line ls = true ->
+  Forall (fun w => a_op (snd w) = OpEval -> no_dollar (render (a_val (snd w))) = true) (writes_of x idx ls).
+Proof.
+  induction ls as [|l ls IH]; intros idx H; simpl; [constructor|].
+  simpl in H. apply andb_true_iff in H as [H1 H2]. apply Forall_app. split; [|apply IH; exact H2].
+  unfold entry. unfold eager_plain_line in H1. destruct (l_body l) as [a|]; [|constructor].
+  destruct (str_eqb (a_var a) x); [|constructor]. constructor; [|constructor].
+  simpl. intro E. rewrite E in H1. exact H1.
+Qed.
+
+Lemma after_eval_ref_plain ws :
+  Forall (fun w => a_op (snd w) = OpEval -> no_dollar (render (a_val (snd w))) = true) ws ->
+  after_eval_ref ws = false.
+Proof.
+  induction ws as [|w ws IH] using rev_ind; intro H; [reflexivity|].
+  apply Forall_app in H as [H1 H2]. inversion H2; subst.
+  rewrite after_eval_ref_snoc. destruct (a_op (snd w)) eqn:E; auto.
+  rewrite H3 by reflexivity. reflexivity.
+Qed.
+
+Lemma writes_of_nil_inv x : forall ls idx,
+  writes_of x idx ls = [] -> forallb (fun l => negb (assigns x l)) ls = true.
+Proof.
+  induction ls as [|l ls IH]; intros idx H; simpl; [reflexivity|].
+  simpl in H. apply app_eq_nil in H as [H1 H2]. rewrite (IH _ H2), andb_true_r.
+  unfold entry in H1. unfold assigns. destruct (l_body l) as [a|]; [|reflexivity].
+  destruct (str_eqb (a_var a) x); [discriminate|reflexivity].
+Qed.
+
+Lemma writes_of_single x pre1 lp mid ap :
+  l_body lp = Some ap -> a_var ap = x ->
+  length (writes_of x 0 (pre1 ++ lp :: mid)) = 1%nat -> writes_of x 0 pre1 = [].
+Proof.
+  intros Hb Hv. rewrite writes_of_app. simpl. unfold entry. rewrite Hb, Hv, str_eqb_refl.
+  rewrite !app_length. simpl. destruct (writes_of x 0 pre1); [reflexivity|]. simpl. lia.
+Qed.
+
+Lemma between_mid {A} (pre1 : list A) lp mid l post :
+  firstn (length (pre1 ++ lp :: mid) - S (length pre1)) (skipn (S (length pre1)) ((pre1 ++ lp :: mid) ++ l :: post)) = mid.
+Proof.
+  rewrite <- app_assoc. simpl app. rewrite skipn_S_mid.
+  replace (length (pre1 ++ lp :: mid) - S (length pre1))%nat with (length mid)
     by (rewrite app_length; simpl; lia).
-  rewrite firstn_mid in Hmid. exact Hmid.
+  apply firstn_mid.
 Qed.
 
 (* the verdicts emitted while processing line l = p[length pre] *)
 Lemma line_sound pre l post s s' vs vd :
-  inv_struct pre s ->
-  (forall x, plain_on x pre = true -> forall fuel, inv_x fuel pre s x) ->
+  (forall x fuel, inv_x fuel pre s x) ->
   check_line s (length pre) l = Ok (s', vs) -> In vd vs ->
   wf_program (pre ++ l :: post) = true ->
   guard (pre ++ l :: post) vd = true ->
   deletable (pre ++ l :: post) (vd_flagged vd).
 Proof.
-  intros Hstruct Hinv Hck Hin Hwf Hg.
+  intros Hinv Hck Hin Hwf Hg.
   unfold check_line in Hck.
-  destruct (update_include_path s l) as [s1|] eqn:E1; [|discriminate].
+  destruct (update_include_path s l) as [s1| |] eqn:E1; try discriminate.
   apply update_include_path_vars in E1.
   destruct (l_body l) as [a|] eqn:Eb; [|inversion Hck; subst; destruct Hin].
-  destruct (handle_varassign s1 (length pre) a false) as [[s2 vs2]|] eqn:E2; [|discriminate].
+  destruct (handle_varassign s1 (length pre) a false) as [[s2 vs2]| |] eqn:E2; try discriminate.
+  destruct (handle_expr s2 a) as [s3| |]; try discriminate.
   inversion Hck; subst s' vs; clear Hck.
   destruct (handle_varassign_verdicts _ _ _ _ _ _ E2 Hin) as (prev & rest & Hrev & Hcases).
   rewrite E1 in Hrev, Hcases. clear E2 Hin.
   set (x := a_var a) in *.
   set (v := vi_var (s_vars s x)) in *.
-  destruct (Hstruct x) as (W1 & _). unfold mv in W1. fold v in W1. rewrite W1 in Hrev.
+  assert (HinvX : forall fuel, inv_var (store_after fuel pre) (writes_of x 0 pre) (known (writes_of x 0 pre)) x v)
+    by (intro fuel; exact (Hinv x fuel)).
+  destruct (HinvX 0%nat) as (W1 & _). rewrite W1 in Hrev, Hcases.
   destruct prev as [pidx ap].
   destruct (writes_of_last _ _ _ _ _ _ Hrev) as (pre1 & lp & mid & Epre & Hp & Hlb & Hlv & Hmid & _).
   simpl in Hp. subst pidx.
   assert (Hwne : writes_of x 0 pre <> []) by (intro E; rewrite E in Hrev; discriminate).
   assert (Hsl : spec_line l = Some (spec_assign a)) by (unfold spec_line; rewrite Eb; reflexivity).
-  assert (Hwf_a : trimmed (render (a_val a)) = true).
+  assert (Hwf_l : assign_ok a = true).
   { unfold wf_program in Hwf. rewrite forallb_app in Hwf. apply andb_true_iff in Hwf as [_ Hwf].
-    simpl in Hwf. apply andb_true_iff in Hwf as [Hwf _]. unfold line_ok in Hwf. rewrite Eb in Hwf.
-    unfold assign_ok in Hwf. apply andb_true_iff in Hwf as [_ Hwf]. exact Hwf. }
-  assert (Hfacts :
-    ((vd_flagged vd = length pre /\ vd_because vd = length pre1) \/
-     (vd_flagged vd = length pre1 /\ vd_because vd = length pre)) ->
-    plain_on x pre = true /\ eager_plain_line l = true /\
-    (vd_flagged vd = length pre1 -> eager_plain mid = true) /\
-    backward_default_ok (pre ++ l :: post) vd = true /\
-    forward_same_ok (pre ++ l :: post) vd = true).
-  { intro Hc. subst pre. apply (guard_facts pre1 lp mid l post x vd ap a); auto. }
-  assert (Hfl : (vd_flagged vd = length pre /\ vd_because vd = length pre1) \/
-                (vd_flagged vd = length pre1 /\ vd_because vd = length pre)).
-  { destruct Hcases as [[Hvd _]|[[Hvd _]|[(Hvd & _)|(Hvd & _)]]]; subst vd; simpl; auto. }
-  destruct (Hfacts Hfl) as (Hpo & Hep_l & Hep_mid0 & Hbwd & Hfwd). clear Hfacts Hg.
-  assert (HinvX : forall fuel, inv_var (store_after fuel pre) (writes_of x 0 pre) (no_shell_on x pre) x v)
-    by (intro fuel; exact (Hinv x Hpo fuel)).
-  assert (Hpl : splain (spec_line l) = true) by (rewrite splain_spec_line; exact Hep_l).
-  destruct Hcases as [[Hvd Hop]|[[Hvd Hop]|[(Hvd & Hop & Hk & Hcv)|(Hvd & Hop & Hk)]]]; subst vd.
-  - (* overwritten: the earlier line lp is flagged *)
-    simpl vd_flagged. subst pre. rewrite <- app_assoc. simpl app.
+    simpl in Hwf. apply andb_true_iff in Hwf as [Hwf _]. unfold line_ok in Hwf. rewrite Eb in Hwf. exact Hwf. }
+  assert (Hwf_a : trimmed (render (a_val a)) = true).
+  { unfold assign_ok in Hwf_l. apply andb_true_iff in Hwf_l as [_ H]. exact H. }
+  assert (Hwf_c : forallb chunk_ok (a_val a) = true).
+  { unfold assign_ok in Hwf_l. apply andb_true_iff in Hwf_l as [H _]. apply andb_true_iff in H as [_ H]. exact H. }
+  (* '=' and ':=' without make variables are plain *)
+  assert (Hplain : (a_op a = OpDefault \/ a_op a = OpAssign \/ (a_op a = OpEval /\ has_make_vars (a_val a) = false)) ->
+                   splain (Some (spec_assign a)) = true).
+  { intros [Ho|[Ho|[Ho Hm]]]; simpl; rewrite Ho; simpl; auto. apply no_vars_plain; assumption. }
+  assert (Hlt : Nat.ltb (length pre1) (length pre) = true) by (subst pre; apply ltb_mid).
+  assert (Hgt : Nat.ltb (length pre) (length pre1) = false).
+  { clear - Hlt. apply Nat.ltb_ge. apply Nat.ltb_lt in Hlt. lia. }
+  (* what the guard says when the earlier line is the flagged one *)
+  assert (Hbwd : vd_flagged vd = length pre1 -> vd_because vd = length pre ->
+                 eager_plain mid = true /\ eager_plain_line l = true).
+  { intros Hf Hb. unfold guard in Hg. rewrite Hf, Hb, Hlt in Hg.
+    apply andb_true_iff in Hg as [Hg1 Hg2]. unfold between in Hg1. subst pre.
+    rewrite between_mid in Hg1. unfold line_plain in Hg2. rewrite nth_error_mid in Hg2. auto. }
+  (* the semantic core of the three "earlier line flagged" cases *)
+  assert (Hback : eager_plain mid = true -> splain (Some (spec_assign a)) = true ->
+                  (forall fuel o1 o2,
+                      o1 = store_after fuel pre x ->
+                      o2 = exec_from fuel (store_after fuel pre1) (to_spec mid) x ->
+                      plain_step o1 (spec_assign a) = plain_step o2 (spec_assign a)) ->
+                  deletable (pre ++ l :: post) (length pre1)).
+  { intros Hep_mid Hpl Hstep. subst pre. rewrite <- app_assoc. simpl app.
     apply bwd_deletable. intros fuel y.
     rewrite Hsl. simpl exec_line.
-    assert (Hep_mid : eager_plain mid = true) by (apply Hep_mid0; reflexivity).
-    rewrite Hsl in Hpl.
     rewrite !(exec_assign_plain fuel _ _ Hpl). simpl s_name.
     destruct (str_eqb (a_var a) y) eqn:Ey.
-    + apply plain_step_const. simpl. destruct Hop as [Ho|Ho]; rewrite Ho; auto.
-    + apply (exec_from_agree_off fuel x).
-      * rewrite (forallb_map_spec splain eager_plain_line); [exact Hep_mid|apply splain_spec_line].
-      * intros z Hz. apply exec_line_other. rewrite sassigns_spec_line. unfold assigns. rewrite Hlb.
+    - apply (Hstep fuel); [rewrite store_after_split|]; reflexivity.
+    - apply (exec_from_agree_off fuel x).
+      + rewrite (forallb_map_spec splain eager_plain_line); [exact Hep_mid|apply splain_spec_line].
+      + intros z Hz. apply exec_line_other. rewrite sassigns_spec_line. unfold assigns. rewrite Hlb.
         apply str_eqb_neq. congruence.
-      * intro E. subst y. unfold x in Ey. rewrite str_eqb_refl in Ey. discriminate.
+      + intro E. subst y. unfold x in Ey. rewrite str_eqb_refl in Ey. discriminate. }
+  destruct Hcases as [[Hvd Hop]|[[Hvd Hop]|[(Hvd & Hop & Hk & Hcv)|(Hvd & Hop & Hk)]]]; subst vd.
+  - (* overwritten: the earlier line lp is flagged *)
+    simpl vd_flagged. destruct (Hbwd eq_refl eq_refl) as [Hep_mid Hep_l].
+    apply Hback; [exact Hep_mid|apply Hplain; tauto|].
+    intros fuel o1 o2 _ _. apply plain_step_const. simpl.
+    destruct Hop as [Ho|[Ho _]]; rewrite Ho; auto.
   - (* the current line is flagged *)
     simpl vd_flagged. apply fwd_deletable. intro fuel.
     destruct (HinvX fuel) as (_ & _ & _ & _ & _ & Hdef & Hval).
     rewrite Hsl. simpl exec_line.
-    destruct Hop as [Ho|[Ho Hv]].
+    destruct Hop as [Ho|(Ho & Hsh & Hv)].
     + (* a default assignment to a defined variable *)
       unfold exec_assign. simpl. rewrite Ho. simpl. fold x.
       destruct (store_after fuel pre x) eqn:Ex; [apply ext_eq_refl|]. exfalso. apply (Hdef Hwne). reflexivity.
     + (* the same text again *)
-      unfold forward_same_ok in Hfwd. simpl in Hfwd.
-      assert (Hlt : Nat.ltb (length pre1) (length pre) = true).
-      { subst pre. apply ltb_mid. }
-      rewrite Hlt in Hfwd. unfold line_op, line_var in Hfwd. rewrite nth_error_mid, Eb in Hfwd.
-      simpl in Hfwd. rewrite firstn_mid in Hfwd.
-      assert (Hns : no_shell_on x pre = true).
-      { destruct Ho as [Ho|Ho]; rewrite Ho in Hfwd; exact Hfwd. }
-      destruct (Hval Hns Hwne) as (t & Ht & Hvt).
+      unfold guard in Hg. simpl vd_flagged in Hg. simpl vd_because in Hg. rewrite Hgt in Hg.
+      unfold line_op, line_var in Hg. rewrite nth_error_mid, Eb in Hg.
+      simpl in Hg. rewrite firstn_mid in Hg. fold x in Hg.
+      assert (Hev : after_eval_ref (writes_of x 0 pre) = false).
+      { destruct Ho as [Ho|[Ho _]]; rewrite Ho in Hg; apply negb_true_iff in Hg; exact Hg. }
+      assert (Hkn : known (writes_of x 0 pre) = true) by (unfold known; rewrite Hsh, Hev; reflexivity).
+      destruct (Hval Hkn Hwne) as (t & Ht & Hvt).
       apply str_eqb_spec in Hv.
       assert (Et : render (a_val a) = t).
       { destruct Hvt as [Hvt|Hvt]; [congruence|].
         rewrite Hvt in Hv. rewrite <- Hv in Hwf_a. discriminate. }
-      intro y. rewrite Hsl in Hpl. rewrite (exec_assign_plain fuel _ _ Hpl). simpl s_name.
+      assert (Hpl : splain (Some (spec_assign a)) = true) by (apply Hplain; tauto).
+      intro y. rewrite (exec_assign_plain fuel _ _ Hpl). simpl s_name.
       destruct (str_eqb (a_var a) y) eqn:Ey; [|reflexivity].
       apply str_eqb_spec in Ey. subst y. fold x. rewrite Ht.
-      unfold plain_step. simpl. destruct Ho as [Ho|Ho]; rewrite Ho; simpl; rewrite Et; reflexivity.
+      unfold plain_step. simpl. destruct Ho as [Ho|[Ho _]]; rewrite Ho; simpl; rewrite Et; reflexivity.
   - (* an earlier line is flagged because the current line assigns the constant value again *)
-    simpl vd_flagged.
-    assert (Hstx : forall fuel, store_after fuel pre x = Some (Txt (render (a_val a)))).
-    { intro fuel. destruct (HinvX fuel) as (_ & _ & _ & Hc & _). destruct (Hc Hk) as [_ Hs].
-      apply str_eqb_spec in Hcv. rewrite <- Hcv. exact Hs. }
-    (* the guard: if the current line is a default assignment, lp is the first assignment *)
-    assert (Hfirst : a_op a = OpDefault -> forallb (fun l0 => negb (assigns x l0)) pre1 = true).
-    { intro Ho. unfold backward_default_ok in Hbwd. simpl vd_flagged in Hbwd. simpl vd_because in Hbwd.
-      assert (Hlt : Nat.ltb (length pre1) (length pre) = true).
-      { subst pre. apply ltb_mid. }
-      rewrite Hlt in Hbwd.
-      assert (Hlo : line_op (pre ++ l :: post) (length pre) = Some OpDefault).
-      { unfold line_op. rewrite nth_error_mid, Eb. simpl. rewrite Ho. reflexivity. }
-      rewrite Hlo in Hbwd.
-      assert (Hkind : vd_kind (on_redundant (length pre1, ap) (length pre, a)) <> KOverwritten).
-      { unfold on_redundant. simpl. destruct (op_eqb (a_op ap) OpDefault); discriminate. }
-      destruct (vd_kind (on_redundant (length pre1, ap) (length pre, a))); try contradiction;
-        apply Nat.eqb_eq in Hbwd; unfold writes_before, line_var in Hbwd;
-        subst pre; rewrite <- app_assoc in Hbwd; simpl app in Hbwd;
-        rewrite nth_error_mid, Hlb, firstn_mid in Hbwd; rewrite Hlv in Hbwd;
-        apply filter_nil_forallb; apply length_zero_iff_nil; exact Hbwd. }
-    subst pre. rewrite <- app_assoc. simpl app.
-    apply bwd_deletable. intros fuel y.
-    rewrite Hsl. simpl exec_line.
-    assert (Hep_mid : eager_plain mid = true) by (apply Hep_mid0; reflexivity).
-    rewrite Hsl in Hpl.
-    rewrite !(exec_assign_plain fuel _ _ Hpl). simpl s_name.
-    destruct (str_eqb (a_var a) y) eqn:Ey.
-    + destruct Hop as [Ho|Ho].
-      * (* default: with lp the variable holds the text, without lp it is undefined *)
-        specialize (Hstx fuel). rewrite store_after_split in Hstx. fold x. rewrite Hstx.
-        assert (Hund : exec_from fuel (store_after fuel pre1) (to_spec mid) x = None).
-        { rewrite exec_from_untouched.
-          - unfold store_after. rewrite exec_from_untouched; [reflexivity|].
-            rewrite (forallb_map_spec _ (fun l0 => negb (assigns x l0))); [exact (Hfirst Ho)|].
-            intro l0. rewrite sassigns_spec_line. reflexivity.
-          - rewrite (forallb_map_spec _ (fun l0 => negb (assigns x l0))); [exact Hmid|].
-            intro l0. rewrite sassigns_spec_line. reflexivity. }
-        rewrite Hund. unfold plain_step. simpl. rewrite Ho. reflexivity.
-      * apply plain_step_const. simpl. destruct Ho as [Ho|Ho]; rewrite Ho; auto.
-    + apply (exec_from_agree_off fuel x).
-      * rewrite (forallb_map_spec splain eager_plain_line); [exact Hep_mid|apply splain_spec_line].
-      * intros z Hz. apply exec_line_other. rewrite sassigns_spec_line. unfold assigns. rewrite Hlb.
-        apply str_eqb_neq. congruence.
-      * intro E. subst y. unfold x in Ey. rewrite str_eqb_refl in Ey. discriminate.
+    simpl vd_flagged. destruct (Hbwd eq_refl eq_refl) as [Hep_mid Hep_l].
+    apply Hback; [exact Hep_mid|apply Hplain; tauto|].
+    intros fuel o1 o2 Ho1 Ho2.
+    destruct Hop as [[Ho Hone]|Ho].
+    + (* default: with lp the variable holds the text, without lp it is undefined *)
+      destruct (HinvX fuel) as (_ & _ & _ & Hc & _). destruct (Hc Hk) as [_ Hs].
+      apply str_eqb_spec in Hcv. rewrite Hcv in Hs. rewrite Hs in Ho1.
+      assert (Hund : o2 = None).
+      { subst o2. rewrite Epre in Hone.
+        assert (H0 : writes_of x 0 pre1 = []) by (eapply writes_of_single; eauto).
+        rewrite exec_from_untouched.
+        - unfold store_after. rewrite exec_from_untouched; [reflexivity|].
+          rewrite (forallb_map_spec _ (fun l0 => negb (assigns x l0)));
+            [exact (writes_of_nil_inv _ _ _ H0)|].
+          intro l0. rewrite sassigns_spec_line. reflexivity.
+        - rewrite (forallb_map_spec _ (fun l0 => negb (assigns x l0))); [exact Hmid|].
+          intro l0. rewrite sassigns_spec_line. reflexivity. }
+      rewrite Ho1, Hund. unfold plain_step. simpl. rewrite Ho. reflexivity.
+    + apply plain_step_const. simpl. destruct Ho as [Ho|[Ho _]]; rewrite Ho; auto.
   - (* an earlier line is flagged because of a shell assignment *)
-    simpl vd_flagged. subst pre. rewrite <- app_assoc. simpl app.
-    apply bwd_deletable. intros fuel y.
-    rewrite Hsl. simpl exec_line.
-    assert (Hep_mid : eager_plain mid = true) by (apply Hep_mid0; reflexivity).
-    rewrite Hsl in Hpl.
-    rewrite !(exec_assign_plain fuel _ _ Hpl). simpl s_name.
-    destruct (str_eqb (a_var a) y) eqn:Ey.
-    + apply plain_step_const. simpl. rewrite Hop. auto.
-    + apply (exec_from_agree_off fuel x).
-      * rewrite (forallb_map_spec splain eager_plain_line); [exact Hep_mid|apply splain_spec_line].
-      * intros z Hz. apply exec_line_other. rewrite sassigns_spec_line. unfold assigns. rewrite Hlb.
-        apply str_eqb_neq. congruence.
-      * intro E. subst y. unfold x in Ey. rewrite str_eqb_refl in Ey. discriminate.
+    simpl vd_flagged. destruct (Hbwd eq_refl eq_refl) as [Hep_mid Hep_l].
+    apply Hback; [exact Hep_mid| |].
+    + rewrite <- Hsl, splain_spec_line. exact Hep_l.
+    + intros fuel o1 o2 _ _. apply plain_step_const. simpl. rewrite Hop. auto.
 Qed.
 
 (* all lines: the invariant is carried along the prefix *)
 Lemma sound_gen : forall ls pre s vs,
-  inv_struct pre s ->
-  (forall x, plain_on x pre = true -> forall fuel, inv_x fuel pre s x) ->
+  (forall x fuel, inv_x fuel pre s x) ->
   check_from s (length pre) ls = Ok vs ->
   wf_program (pre ++ ls) = true ->
   forall vd, In vd vs -> guard (pre ++ ls) vd = true -> deletable (pre ++ ls) (vd_flagged vd).
 Proof.
-  induction ls as [|l ls IH]; intros pre s vs Hstruct Hinv Hck Hwf vd Hin Hg.
+  induction ls as [|l ls IH]; intros pre s vs Hinv Hck Hwf vd Hin Hg.
   - simpl in Hck. inversion Hck; subst. destruct Hin.
-  - simpl in Hck. destruct (check_line s (length pre) l) as [[s' vs0]|] eqn:E1; [|discriminate].
-    destruct (check_from s' (S (length pre)) ls) as [rest|] eqn:E2; [|discriminate].
+  - simpl in Hck. destruct (check_line s (length pre) l) as [[s' vs0]| |] eqn:E1; try discriminate.
+    destruct (check_from s' (S (length pre)) ls) as [rest| |] eqn:E2; try discriminate.
     inversion Hck; subst vs. apply in_app_or in Hin as [Hin|Hin].
     + eapply line_sound; eauto.
-    + replace (pre ++ l :: ls) with ((pre ++ [l]) ++ ls) in * by (rewrite <- app_assoc; reflexivity).
+    + assert (Hok : line_ok l = true).
+      { unfold wf_program in Hwf. rewrite forallb_app in Hwf. apply andb_true_iff in Hwf as [_ Hwf].
+        simpl in Hwf. apply andb_true_iff in Hwf as [Hwf _]. exact Hwf. }
+      replace (pre ++ l :: ls) with ((pre ++ [l]) ++ ls) in * by (rewrite <- app_assoc; reflexivity).
       apply (IH (pre ++ [l]) s' rest); auto.
-      * eapply inv_struct_step; eauto.
-      * intros x Hpo fuel. rewrite plain_on_app in Hpo. apply andb_true_iff in Hpo as [Hpo Hl].
-        apply (inv_x_step fuel pre s l s' vs0 x); auto.
-        intro Ha. unfold plain_on in Hl. simpl in Hl. rewrite Ha, andb_true_r in Hl. exact Hl.
+      * intros x fuel. apply (inv_x_step fuel pre s l s' vs0 x); auto.
       * rewrite app_length. simpl. rewrite Nat.add_1_r. exact E2.
 Qed.
 
@@ -289,6 +288,31 @@ Theorem verdict_sound_partial : verdict_sound_on (fun p vd => guard p vd = true)
 Proof.
   intros p vs vd Hwf Hck Hin Hg.
   apply (sound_gen p [] new_scope vs); auto.
-  - apply inv_struct_init.
-  - intros x _ fuel. apply inv_x_init.
+  intros x fuel. apply inv_x_init.
+Qed.
+
+(* In particular: if no ':=' and no '!=' has a '$' in its text, every verdict is
+   sound -- for any number of files. *)
+Lemma guard_of_eager_plain p vs vd :
+  check p = Ok vs -> In vd vs -> eager_plain p = true -> guard p vd = true.
+Proof.
+  intros _ _ Hep. unfold guard.
+  destruct (Nat.ltb (vd_flagged vd) (vd_because vd)).
+  - apply andb_true_iff. split.
+    + unfold between, eager_plain. apply forallb_firstn, forallb_skipn. exact Hep.
+    + unfold line_plain. destruct (nth_error p (vd_because vd)) as [l|] eqn:E; [|reflexivity].
+      unfold eager_plain in Hep. rewrite forallb_forall in Hep. apply Hep.
+      eapply nth_error_In; eauto.
+  - destruct (line_op p (vd_flagged vd)) as [[| | | |]|]; try reflexivity;
+      apply negb_true_iff; apply after_eval_ref_plain; apply writes_of_plain;
+      apply forallb_firstn; exact Hep.
+Qed.
+
+Theorem eager_plain_sound :
+  forall (p : program) (vs : list verdict) (vd : verdict),
+    wf_program p = true -> eager_plain p = true ->
+    check p = Ok vs -> In vd vs -> deletable p (vd_flagged vd).
+Proof.
+  intros p vs vd Hwf Hep Hck Hin.
+  apply (verdict_sound_partial p vs vd Hwf Hck Hin). eapply guard_of_eager_plain; eauto.
 Qed.
